@@ -311,6 +311,16 @@ func newDefs() *defs {
 	q("echoInt", &graphql.FieldDefinition{Type: graphql.IntType, Arguments: args("x", graphql.IntType), Resolve: echo("echoInt", "x")})
 	q("echoFloat", &graphql.FieldDefinition{Type: graphql.FloatType, Arguments: args("x", graphql.FloatType), Resolve: echo("echoFloat", "x")})
 	q("echoString", &graphql.FieldDefinition{Type: graphql.StringType, Arguments: args("s", graphql.StringType), Resolve: echo("echoString", "s")})
+	// big(n): n bytes for a small request (phase P: answers that stall the server's socket writes)
+	q("big", &graphql.FieldDefinition{Type: graphql.StringType,
+		Arguments: map[string]*graphql.InputValueDefinition{"n": {Type: graphql.NewNonNullType(graphql.IntType)}},
+		Resolve: func(ctx graphql.FieldContext) (interface{}, error) {
+			n, _ := ctx.Arguments["n"].(int)
+			if n < 0 || n > 1<<20 {
+				return nil, fmt.Errorf("n out of range: %v", n)
+			}
+			return strings.Repeat("x", n), nil
+		}})
 	q("echoBool", &graphql.FieldDefinition{Type: graphql.BooleanType, Arguments: args("b", graphql.BooleanType), Resolve: echo("echoBool", "b")})
 	q("echoID", &graphql.FieldDefinition{Type: graphql.IDType, Arguments: args("id", graphql.IDType), Resolve: echo("echoID", "id")})
 	q("echoList", &graphql.FieldDefinition{Type: graphql.NewListType(graphql.IntType), Arguments: args("xs", graphql.NewListType(graphql.IntType)), Resolve: echo("echoList", "xs")})
